@@ -188,6 +188,9 @@ def ob_seq(c0: int, n0: int, t0: int, c1: int, n1: int, t1: int, c2: int, n2: in
     L = H.P("L")
     first = H.P("first")        # the first request kind is fixed per obligation (parallelism)
     H.assume(c0 == first)
+    if H.P("core_only", False):
+        # (L = 4: 42^3 continuations do not fit the budget; the later requests range over the three real commands)
+        H.assume(c1 <= 2 and c2 <= 2 and c3 <= 2)
     raw = [(c0, n0, t0), (c1, n1, t1), (c2, n2, t2), (c3, n3, t3)]
     for c, n, t in raw[L:]:
         H.assume(c == 0 and n == 0 and t == 0)
@@ -312,8 +315,10 @@ def obligations(tier, seed):
     L = 2 if tier == "quick" else 4
     for first in range(7):
         obs.append({"name": "seq/L%d/first_%s" % (L, CMDS[first].strip("<>")), "fn": "ob_seq", "mode": "S",
-                    "params": {"L": L, "first": first}, "timeout": 300 if tier == "quick" else 1500,
-                    "bounds": "%d requests (first = %s) over 7 kinds x 2 names x 3 types, then EOF" % (L, CMDS[first])})
+                    "params": {"L": L, "first": first, "core_only": L == 4}, "timeout": 300 if tier == "quick" else 1500,
+                    "bounds": ("%d requests (first = %s) over 7 kinds x 2 names x 3 types, then EOF" % (L, CMDS[first])) if L < 4 else
+                              ("4 requests (first = %s of 7 kinds; the others REGISTER / UNREGISTER / MAYBE_UNLINK) x 2 names x "
+                               "3 types, then EOF" % CMDS[first])})
     if tier == "thorough":
         for first in range(7):
             obs.append({"name": "seq/L3/first_%s" % CMDS[first].strip("<>"), "fn": "ob_seq", "mode": "S",
